@@ -320,6 +320,15 @@ def prop_c03(off, k, cs):
         return f"FAIL independent parser rejects the writer's output: {e}"
     if [(d, p, a) for d, p, a in back] != spec:
         return "FAIL independent parser recovers different fields"
+    # the text writer with an explicit session key writes the same container after the signature
+    s = io.StringIO()
+    Bf3File({}, parse_comps(cs)).write_file(s, key)
+    lines = s.getvalue().split("\n")
+    body = bytes.fromhex("".join(lines[lines.index("") + 1:]))
+    want5 = BF3_FILE_SIG + layout.serialize(key, len(BF3_FILE_SIG), spec)
+    if body != want5:
+        n = next((i for i, (a, b) in enumerate(zip(body, want5)) if a != b), min(len(body), len(want5)))
+        return f"FAIL write_file(session_key) differs from signature + documented layout under that key at byte {n}"
     return "ok"
 
 
